@@ -10,6 +10,8 @@
 
 #include "stdinc.h"
 
+#include "verif_hooks.h"
+
 #include "pbind.rsc"
 
 #include "as_endian.h"
@@ -88,7 +90,7 @@ static void ProcessFile(char* FileName) {
 
     SumLen = 0;
 
-    do {
+    do VERIF_LOOP(pbind_rec) {
         ReadRecordHeader(&InpHeader, &InpCPU, &InpSegment, &InpGran, FileName, SrcFile);
 
         if (InpHeader == FileHeaderStartAdr) {
@@ -126,7 +128,7 @@ static void ProcessFile(char* FileName) {
                 if (!Write2(TargFile, &InpLen)) {
                     ChkIO(TargName);
                 }
-                while (InpLen > 0) {
+                while (InpLen > 0) VERIF_LOOP(pbind_copy) {
                     TransLen = min(BufferSize, InpLen);
                     if (fread(Buffer, 1, TransLen, SrcFile) != TransLen) {
                         ChkIO(FileName);
